@@ -1232,6 +1232,9 @@ package server
 //@ ghost macro hkMeets(h, x1, y1, x2, y2) = stMinX(h) <= x2 && x1 <= stMaxX(h) && stMinY(h) <= y2 && y1 <= stMaxY(h)
 //@ ghost scratch outSeq []ref
 //@ ghost scratch oldSeq []ref
+//@ ghost scratch crossSeq []ref
+//@ ghost macro rmin(a, b) = ite(a <= b, a, b)
+//@ ghost macro rmax(a, b) = ite(a <= b, b, a)
 //@ ghost macro inCands(r, h) = exists(j, 0, len(r), r[j] == h)
 //@ func Server.getQueueCandidates
 //@   frame-by-effects
@@ -1258,3 +1261,7 @@ package server
 //@   loop 4 invariant [kept.old] forall(i, 0, len(oldSeq), d.old != nil && astype(oldSeq[i], "server.Hook").Key == d.key ==> indom(candidates, oldSeq[i]))
 //@   at-return [candidates.old-rect] d.old != nil ==> allint(h, (*s.hookTree)[h] > 0 && astype(h, "server.Hook").Key == d.key && hkMeets(h, gMinX(objGeo(d.old)), gMinY(objGeo(d.old)), gMaxX(objGeo(d.old)), gMaxY(objGeo(d.old))) ==> inCands(result, h))
 //@   at-return [candidates.new-rect] d.obj != nil ==> allint(h, (*s.hookTree)[h] > 0 && astype(h, "server.Hook").Key == d.key && hkMeets(h, gMinX(objGeo(d.obj)), gMinY(objGeo(d.obj)), gMaxX(objGeo(d.obj)), gMaxY(objGeo(d.obj))) ==> inCands(result, h))
+//@   set-at-call rtree.RTree.Search#1 crossSeq = rtSearch(*s.hookCross, rmin(gMinX(objGeo(d.old)), gMinX(objGeo(d.obj))), rmin(gMinY(objGeo(d.old)), gMinY(objGeo(d.obj))), rmax(gMaxX(objGeo(d.old)), gMaxX(objGeo(d.obj))), rmax(gMaxY(objGeo(d.old)), gMaxY(objGeo(d.obj))))
+//@   loop 3 invariant [kept.cross] forall(i, 0, len(crossSeq), d.old != nil && d.obj != nil && !allint(o, (*s.hookCross)[o] == 0) && astype(crossSeq[i], "server.Hook").Key == d.key ==> indom(candidates, crossSeq[i]))
+//@   loop 4 invariant [kept.cross] forall(i, 0, len(crossSeq), d.old != nil && d.obj != nil && !allint(o, (*s.hookCross)[o] == 0) && astype(crossSeq[i], "server.Hook").Key == d.key ==> indom(candidates, crossSeq[i]))
+//@   at-return [candidates.cross-rect] d.old != nil && d.obj != nil ==> allint(h, (*s.hookCross)[h] > 0 && astype(h, "server.Hook").Key == d.key && hkMeets(h, rmin(gMinX(objGeo(d.old)), gMinX(objGeo(d.obj))), rmin(gMinY(objGeo(d.old)), gMinY(objGeo(d.obj))), rmax(gMaxX(objGeo(d.old)), gMaxX(objGeo(d.obj))), rmax(gMaxY(objGeo(d.old)), gMaxY(objGeo(d.obj)))) ==> inCands(result, h))
